@@ -294,6 +294,40 @@ pub fn gen_c03(sh: &mut Shards, o: &Opts) -> serde_json::Value {
             }
         }
     }
+    // large images (position-dependent code paths), probed
+    for (ti, &t) in CLASS_REPS.iter().enumerate() {
+        for (di, dir) in ["lin", "gam"].iter().enumerate() {
+            if (ti + di) % 3 != 0 {
+                continue;
+            }
+            let mut rng = Rng::new(o.seed, 0x0303_b160 + (ti * 2 + di) as u64);
+            let (w, h) = crate::util::BIG;
+            let px: Vec<[f32; 3]> = (0..w * h).map(|_| [rng.unit() as f32, rng.unit() as f32, rng.unit() as f32]).collect();
+            let idx = crate::util::probe_indices(w * h, w, &mut rng);
+            let sel: Vec<[f32; 3]> = idx.iter().map(|&i| px[i]).collect();
+            let mut s = String::new();
+            let _ = write!(s, "\"ev\":\"tf\",\"probe\":1,\"tc\":{t},\"dir\":\"{dir}\",\"w\":{w},\"h\":{h},\"x\":");
+            list(&mut s, &sel, px_fx);
+            match apply(t, dir, &px, w, h) {
+                Ok(out) => {
+                    let o2: Vec<[f32; 3]> = idx.iter().map(|&i| out[i]).collect();
+                    s.push_str(",\"res\":\"ok\",\"y\":");
+                    list(&mut s, &o2, px_fx);
+                    if t == 8 {
+                        s.push_str(",\"xb\":");
+                        list(&mut s, &sel, px_bits);
+                        s.push_str(",\"yb\":");
+                        list(&mut s, &o2, px_bits);
+                    }
+                }
+                Err(e) => {
+                    let _ = write!(s, ",\"res\":\"{e}\"");
+                }
+            }
+            sh.emit(&s);
+            samples += 3 * idx.len() as u64;
+        }
+    }
     // aliases of BT.1886: bit-identical results on a shared input set (both directions)
     for (di, dir) in ["lin", "gam"].iter().enumerate() {
         let mut rng = Rng::new(o.seed, 0x0303_1000 + di as u64);
@@ -354,6 +388,28 @@ pub fn gen_c10(sh: &mut Shards, o: &Opts) -> serde_json::Value {
             }
             sh.emit(&s);
         }
+    }
+    for (ti, &t) in TC_SUP.iter().enumerate().filter(|(i, _)| i % 3 == 1) {
+        let mut rng = Rng::new(o.seed, 0x1010_b160 + ti as u64);
+        let (w, h) = crate::util::BIG;
+        let px: Vec<[f32; 3]> = (0..w * h).map(|_| [rng.unit() as f32, rng.unit() as f32, rng.unit() as f32]).collect();
+        let idx = crate::util::probe_indices(w * h, w, &mut rng);
+        let sel: Vec<[f32; 3]> = idx.iter().map(|&i| px[i]).collect();
+        let mut s = String::new();
+        let _ = write!(s, "\"ev\":\"tfrt\",\"probe\":1,\"tc\":{t},\"w\":{w},\"h\":{h},\"x\":");
+        list(&mut s, &sel, px_fx);
+        match apply(t, "lin", &px, w, h).and_then(|m| apply(t, "gam", &m, w, h)) {
+            Ok(out) => {
+                let o2: Vec<[f32; 3]> = idx.iter().map(|&i| out[i]).collect();
+                s.push_str(",\"res\":\"ok\",\"z\":");
+                list(&mut s, &o2, px_fx);
+            }
+            Err(e) => {
+                let _ = write!(s, ",\"res\":\"{e}\"");
+            }
+        }
+        sh.emit(&s);
+        samples += 3 * idx.len() as u64;
     }
     serde_json::json!({"samples": samples, "swept_by_screen": swept, "curves": TC_SUP.len(), "distinct": samples})
 }
